@@ -31,12 +31,17 @@ OBLIGATIONS = [
     "Pkgcore.C22.change_offset_set",
     "Pkgcore.C22.climb_terminates",
     "Pkgcore.C22.missing_dirs_exact",
+    "Pkgcore.C22.fresh_result_is_new_object",
+    "Pkgcore.C22.object_history",
+    "Pkgcore.C22.relocated_set_independent",
 ]
 TRUSTED = [
     "posixpath.normpath / dirname / join are re-expressed character by character in Lean (Python 3.12 runs a C implementation of normpath); "
     "tied to the real functions by an exhaustive differential run over all strings up to length 6 (8 in the thorough tier) over {/ . a b} plus generated spellings",
     "an fs entry is modelled as (location, kind, tag): the set operations of contents.py only read .location; the harness stores the tag in `mode` "
     "and checks that kind and tag of every resulting entry come from the right operand",
+    "object identity is modelled as a creation index into a list of sets (value-returning methods append, in-place methods overwrite their own slot); "
+    "the check ties it to the code by editing one of source/result after every value-returning call and re-reading the other, and by re-reading sets put aside",
     "Python dict (insertion ordered, replace keeps position) and set-of-str membership are modelled as lists; iteration order of a Python set argument is read back from the object passed",
 ]
 ASSUMPTIONS = [
@@ -50,7 +55,10 @@ ASSUMPTIONS = [
 RULE = ("random initial sets (0-6 entries of the five fs classes, locations drawn from a small component alphabet so that collisions are frequent, spelled with "
         "trailing/doubled slashes, /./, x/.., leading /// or //) followed by 1-7 random operations whose arguments are an entry, a path string, another contentsSet, "
         "the set itself, or a list/tuple/set/frozenset/iterator/dict of entries, strings or both; non-trivial = some operation's argument names at least one "
-        "path present in the current set, and for set-algebra operations also at least one absent path or an unnormalised spelling")
+        "path present in the current set, and for set-algebra operations also at least one absent path or an unnormalised spelling. Relocations draw the new "
+        "offset from fixed paths, the pool, or the old offset itself (respelled). Every value-returning operation is followed up by editing the object the "
+        "sequence drops (add, discard, difference_update) while watching the one it keeps, and the last four sets put aside (sources, unassigned results, "
+        "contentsSet arguments) are re-read after every later operation: they must keep their contents")
 
 KINDS = ["file", "dir", "sym", "dev", "fifo"]
 COMPS = ["a", "b", "c", "usr", "x y", "é", "..b", "a.", "...", "-"]
@@ -158,6 +166,8 @@ class Gen:
         rng = self.rng
         r = rng.random()
         assign = rng.random() < 0.6
+        if abs_only and rng.random() < 0.04:
+            return self.relocation(pick, assign)
         if r < 0.07:
             return {"op": "contains", "arg": self.arg(pick)}
         if r < 0.13:
@@ -196,10 +206,28 @@ class Gen:
         if r < 0.98 and abs_only:
             return {"op": "add_missing_directories", "tag": 1000 + rng.randrange(5)}
         if abs_only:
-            old = rng.choice(["/", "/", "", "/usr", pick(), posixpath.dirname(pick())])
-            new = rng.choice(["/", "/new", "/n/m", "//r", "/new/", "/n//m/.", "/a"])
-            return {"op": "change_offset", "old": spell(rng, old), "new": new, "assign": assign}
+            return self.relocation(pick, assign)
         return {"op": "len"}
+
+    def relocation(self, pick, assign):
+        """old offset: root, a directory of the pool, any spelling; new offset: a fixed absolute path, a path of the pool (so that relocated entries
+        land on names used by later arguments), or the old offset again / respelled (a relocation onto the same prefix must still build a set of its own)"""
+        rng = self.rng
+        old = rng.choice(["/", "/", "", "/usr", pick(), posixpath.dirname(pick())])
+        k = rng.random()
+        if k < 0.55:
+            new = rng.choice(["/", "/new", "/n/m", "//r", "/new/", "/n//m/.", "/a"])
+        elif k < 0.70:
+            new = spell(rng, pick())
+        elif k < 0.80:
+            new = posixpath.dirname(pick())
+        elif k < 0.90:
+            new = old or "/"
+        else:
+            new = spell(rng, old or "/")
+        if not new.startswith("/"):
+            new = "/" + new
+        return {"op": "change_offset", "old": spell(rng, old), "new": new, "assign": assign}
 
 
 def E(loc, kind=0, tag=1):
@@ -235,6 +263,17 @@ CORPUS = [
                                          {"op": "contains", "arg": {"p": "/../a/b"}}, {"op": "contains", "arg": {"p": "a/b"}}, {"op": "contains", "arg": {"p": ""}}]},
     {"init": [E("/usr/a", 0, 1), E("/usr", 1, 2), E("/usr/a/b", 3, 3)], "ops": [{"op": "change_offset", "old": "/usr/", "new": "//r", "assign": True}, {"op": "change_offset", "old": "//r", "new": "/", "assign": True}]},
     {"init": [E("/a", 0, 1), E("/b", 0, 2)], "ops": [{"op": "change_offset", "old": "/", "new": "/new/", "assign": True}, {"op": "change_offset", "old": "", "new": "/q", "assign": True}]},
+    # operations that have nothing to change (relocation onto the same prefix, empty / identical arguments) still return a map of their own:
+    # the sequence goes on with one of the two sets and the other one must keep its contents
+    {"init": [E("/img/usr/", 1, 1), E("/img//usr/bin/tool", 0, 2), E("/img/etc/tool.conf", 0, 3)], "ops": [
+        {"op": "change_offset", "old": "/img/", "new": "/img/./", "assign": True}, {"op": "add", "ent": E("/img/var/state", 0, 4)},
+        {"op": "discard", "arg": {"p": "/img/etc//tool.conf/"}}, {"op": "difference_update", "other": {"kind": "list", "items": [{"p": "/img/usr/bin/tool"}]}}]},
+    {"init": [E("/a", 0, 1), E("/b/c", 1, 2)], "ops": [{"op": "change_offset", "old": "/", "new": "/", "assign": False}, {"op": "remove", "arg": {"p": "/a"}},
+                                                      {"op": "change_offset", "old": "", "new": "///", "assign": True}, {"op": "add", "ent": E("/d", 0, 3)}]},
+    {"init": [E("/a", 0, 1), E("/b", 1, 2)], "ops": [{"op": "difference", "other": {"kind": "list", "items": []}, "assign": True}, {"op": "discard", "arg": {"p": "/a"}},
+                                                    {"op": "union", "other": {"kind": "cset", "cset": []}, "assign": False}, {"op": "add", "ent": E("/c", 0, 3)},
+                                                    {"op": "intersection", "other": {"kind": "self"}, "assign": True}, {"op": "remove", "arg": {"p": "/b"}},
+                                                    {"op": "symmetric_difference", "other": {"kind": "tuple", "items": []}, "assign": False}, {"op": "add", "ent": E("/b", 2, 4)}]},
     {"init": [E("/a", 0, 1)], "ops": [{"op": "update", "other": {"kind": "list", "items": [{"e": E("/b", 1, 2)}, {"p": "/c"}]}, "stop": True}]},
     {"init": [E("/a", 0, 1), E("/b", 1, 2)], "ops": [{"op": "symmetric_difference_update", "other": {"kind": "self"}}, {"op": "len"}]},
     {"init": [E("/a", 0, 1), E("/b", 1, 2)], "ops": [{"op": "intersection_update", "other": {"kind": "self"}}, {"op": "issubset", "other": {"kind": "self"}}, {"op": "isdisjoint", "other": {"kind": "self"}}]},
@@ -270,6 +309,49 @@ def run_impl(case, fs, contents):
     def note_arg(a):
         probes.add(posixpath.normpath(a["e"]["loc"] if "e" in a else a["p"]))
 
+    # Every set is a map of its own (a value): objects other than the one an operation is called on keep their contents.
+    # `held` = the sets the sequence has produced and put aside (the source of an assigned result, an unassigned result, contentsSet arguments)
+    # with the contents they had then; they are looked at again after every later operation.
+    held = []
+
+    def hold(obj, what):
+        held.append((obj, canon(obj), what))
+        del held[:-4]
+
+    def independent(src, res, assign):
+        """the follow-up that makes sharing between a value-returning operation's source and result observable: edit the one the sequence drops
+        (by add / discard / difference_update) and watch the one it keeps; returns None or a description"""
+        victim, watched, vname, wname = (src, res, "source", "result") if assign else (res, src, "result", "source")
+        before = canon(watched)
+        n = 0
+        while "/probe-%d" % n in victim or "/probe-%d" % n in watched:
+            n += 1
+        steps = [("add", {"loc": "/probe-%d" % n, "kind": 0, "tag": 999})]
+        locs = [x.location for x in victim]
+        if locs:
+            steps.append(("discard", locs[0] + "/"))
+            steps.append(("difference_update", locs))
+        done = []
+        saved = list(victim)
+        for what, a in steps:
+            done.append({"on": vname, "op": what, "arg": a})
+            try:
+                if what == "add":
+                    victim.add(mk(a))
+                else:
+                    getattr(victim, what)(a)
+            except Exception:
+                break
+            now = canon(watched)
+            if now != before:
+                return {"followup": done, "text": "%s of the %s changes the %s from %s to %s%s" % (
+                    what, vname, wname, before, now, " (the result is the very object it was computed from)" if src is res else
+                    " (both share one _dict)" if src._dict is res._dict else "")}
+        # put the edited object back as it was: it stays under observation in `held`
+        victim.difference_update([x.location for x in victim])
+        victim.update(saved)
+        return None
+
     cur = contents.contentsSet([mk(e) for e in case["init"]])
     out = []
     for op in case["ops"]:
@@ -277,6 +359,7 @@ def run_impl(case, fs, contents):
         rec = {}
         ser_other = None
         other = None
+        other_snap = None
         if "other" in op:
             o = op["other"]
             k = o["kind"]
@@ -285,6 +368,7 @@ def run_impl(case, fs, contents):
                 ser_other = {"cset": [{"loc": x.location, "kind": kind_of(x), "tag": x.mode} for x in cur]}
             elif k == "cset":
                 other = contents.contentsSet([mk(e) for e in o["cset"]])
+                other_snap = canon(other)
                 ser_other = {"cset": o["cset"]}
                 for e in o["cset"]:
                     note_arg({"e": e})
@@ -337,8 +421,12 @@ def run_impl(case, fs, contents):
                 if not isinstance(r, contents.contentsSet):
                     rec["exc"] = "result is not a contentsSet"
                 rec["ret"] = canon(r)
+                src = cur
                 if op.get("assign"):
                     cur = r
+                if isinstance(r, contents.contentsSet):
+                    rec["alias"] = independent(src, r, bool(op.get("assign")))
+                    hold(src if op.get("assign") else r, "the %s of operation %d (%s)" % ("source" if op.get("assign") else "result", len(out), name))
             elif name in ("difference_update", "intersection_update", "symmetric_difference_update", "update"):
                 getattr(cur, name)(other)
                 rec["ret"] = None
@@ -346,8 +434,11 @@ def run_impl(case, fs, contents):
                 r = cur.change_offset(op["old"], op["new"])
                 rec["ret"] = canon(r)
                 rec["before"] = canon(cur)
+                src = cur
                 if op.get("assign"):
                     cur = r
+                rec["alias"] = independent(src, r, bool(op.get("assign")))
+                hold(src if op.get("assign") else r, "the %s of operation %d (change_offset)" % ("source" if op.get("assign") else "result", len(out)))
             elif name == "add_missing_directories":
                 rec["before"] = canon(cur)
                 cur.add_missing_directories(mode=op["tag"], mtime=0)
@@ -366,6 +457,16 @@ def run_impl(case, fs, contents):
             rec["ret"] = "EXC"
             rec["exc"] = "%s: %s" % (type(e).__name__, e)
         rec["state"] = canon(cur)
+        if not rec.get("alias"):
+            rec.pop("alias", None)
+            if other_snap is not None and canon(other) != other_snap:
+                rec["alias"] = {"text": "%s changes its contentsSet argument from %s to %s" % (name, other_snap, canon(other))}
+            for obj, snap, what in held:
+                if canon(obj) != snap:
+                    rec["alias"] = {"text": "%s on the current set changes %s from %s to %s" % (name, what, snap, canon(obj))}
+                    break
+            if other_snap is not None:
+                hold(other, "the contentsSet argument of operation %d (%s)" % (len(out), name))
         for loc, _, _ in rec["state"]:
             probes.add(loc)
         if isinstance(rec["ret"], list) and rec["ret"] and isinstance(rec["ret"][0], list):
@@ -544,6 +645,17 @@ def run(ctx):
             if "exc" in rec:
                 ctx.violation(where, f"{name}: {rec['exc']}")
                 break
+            if rec.get("alias"):
+                # a set that is not the target of an operation must keep its map (sets are values: results are maps of their own)
+                al = rec["alias"]
+                if isinstance(al, dict):
+                    if "followup" in al:
+                        where["followup"] = al["followup"]
+                    al = al["text"]
+                ctx.violation(where, f"sets are not independent maps: {al}")
+                break
+            if name in ("difference", "intersection", "union", "symmetric_difference", "change_offset") and ret not in ("EXC", "NeedsEntries", "KeyError"):
+                ctx.count("independence_followups")
             ret = rec["ret"]
             if isinstance(ret, str):
                 ctx.count("ret_" + ret)
@@ -610,7 +722,8 @@ LEVEL_TEXT = ("Kernel-checked Lean 4 theorems about a character-level model of p
               "normpath is idempotent and yields a unique normal form; every operation (lookup, add, remove, discard, difference, intersection, union, symmetric "
               "difference, their in-place forms, update, subset/superset/disjoint tests, len) with every argument kind (entry, path string, contentsSet, arbitrary "
               "iterable of entries and strings) refines the pointwise operation on maps keyed by normalised path, for all sets and arguments; relocation swaps the "
-              "leading components; add_missing_directories terminates and adds exactly the absent proper ancestors other than /. The model is tied to the code by "
+              "leading components; on a heap of objects every value-returning method yields a new object and an object's contents are determined by the in-place "
+              "calls addressed to it alone (sources and results are independent maps, also for a relocation onto the same prefix); add_missing_directories terminates and adds exactly the absent proper ancestors other than /. The model is tied to the code by "
               "replaying random operation sequences on real contentsSet objects (all container kinds, unnormalised spellings, aliasing) and by an exhaustive "
               "differential test of the path primitives; the same runs evaluate the map specification directly on the real code.")
 LEVEL_NOTE = ("Trusted: Lean kernel; standard axioms only; the Lean re-expression of posixpath (validated exhaustively on short strings, not proved against CPython); "
